@@ -100,7 +100,7 @@ StoredCond(e) ==
           ELSE Len(e.proof) > 0 /\ e.st.id = LastOf(e.proof)
   ELSE e.st.n = 0
 
-\* ---- code-shaped walk (what today's validateTrieProof / TraverseTrieNode do), used only to attribute panics to the
+\* ---- code-shaped walk (what validateTrieProof / TraverseTrieNode do on the repaired tree), used only to attribute panics to the
 \* listed findings and to report drift; results r: "ok" | "err" | "short" (path shorter than an extension key whose
 \* prefix it is: path[index] panics) | "empty" (extension with an empty key: Key[len-1] panics)
 R(r, h, p, lf) == [r |-> r, h |-> h, p |-> p, lf |-> lf]
@@ -124,6 +124,7 @@ WalkFrom(U, id, rem, rest) ==
   IF rest = <<>> THEN R("ok", id, rem, 0)
   ELSE LET s == Trav(U, id, rem) IN
        IF s.r # "ok" THEN s
+       ELSE IF Len(s.p) >= Len(rem) THEN ErrR     \* repaired code: a node followed by another proof node must consume part of the path (a leaf does not)
        ELSE IF s.h < 1 \/ s.h # rest[1] THEN ErrR
        ELSE WalkFrom(U, rest[1], s.p, Tail(rest))
 CWalk(U, root, path, proof) ==
@@ -174,7 +175,7 @@ Judge(U, e, D) ==
 Drifts(U, e) == LET p == Predict(U, e) IN
                 CASE p = "ok"  -> e.val # "ok"
                   [] p = "err" -> e.val # "err"
-                  [] OTHER     -> e.val # "panic"
+                  [] OTHER     -> e.val # "err"      \* "short" / "empty": the repaired TraverseTrieNode returns an error (it panicked at the pinned commit)
 
 Init == l = 1 /\ wl = 0 /\ viol = {} /\ violK = {} /\ drift = {}
 
